@@ -832,6 +832,12 @@ class QvmCpu:
                       expected=a.type,
                       got=b.type)
 
+        if a.type.is_integral and b.value > 64 and abs(a.value) > 1:
+            # certainly out of range for an integral cell; do not
+            # compute (or try to print) the huge number
+            self.trap(TrapCode.INVALID_CELL_VALUE,
+                      type=a.type, value='overflow')
+
         try:
             result = a.value ** b.value
         except OverflowError:
